@@ -368,19 +368,10 @@ fn c02_scmp_message_mut_preserves_inv() {
     assert!(ScmpPayloadView::has_required_size(&buf[..vlen]) == Ok(vlen), "C02.mut: scmp message setters preserve Inv");
 }
 
-/// `ScmpUnknownMessageView::set_message_type` is a SAFE setter of the size-determining type byte.
-#[kani::proof]
-fn c02_scmp_unknown_set_type_preserves_inv() {
-    let mut buf: [u8; NS] = kani::any();
-    let len: usize = kani::any();
-    kani::assume(len <= NS);
-    let vlen;
-    {
-        let Ok((v, _)) = ScmpPayloadView::try_from_mut_slice(&mut buf[..len]) else { return };
-        vlen = v.as_slice().len();
-        let ScmpMessageViewMut::Unknown(m) = v.message_mut() else { return };
-        m.set_message_type(kani::any());
-        kani::cover!(true, "type byte of an unknown message rewritten");
-    }
-    assert!(ScmpPayloadView::has_required_size(&buf[..vlen]) == Ok(vlen), "C02.mut: safe ScmpUnknownMessageView::set_message_type preserves Inv of the payload view");
-}
+// `ScmpUnknownMessageView::set_message_type` used to be a SAFE setter of the size-determining type
+// byte (F-scmp-unknown-settype, repaired by fix commit cc47d8b: it is now an `unsafe fn` like on
+// every sibling view and therefore outside the property by its own statement). The harness that
+// exposed it (`c02_scmp_unknown_set_type_preserves_inv`) called it from safe code and no longer
+// compiles; the unit's anchor scan instead requires the setter to be generated with
+// `gen_unsafe_field_write!` -- if it is made safe again the check reports a lost anchor (exit 2)
+// and this harness has to be restored.
